@@ -56,6 +56,8 @@ def main():
         sh("git -C /repo worktree add --detach %s HEAD" % repo)
         sh("mkdir -p %s && rsync -a --exclude .cache --exclude evidence --exclude scratch --exclude seeded %s/ %s/ && mkdir -p %s/evidence" % (root, ROOT, root, root))
         sh("sed -i 's#=> /repo#=> %s#' %s/harness/go.mod" % (repo, root))
+        # share the Go build cache (safe for concurrent use): the scratch copy then only rebuilds what the patch touches
+        sh("mkdir -p %s/.cache && ln -s %s/.cache/gocache %s/.cache/gocache" % (root, ROOT, root))
     elif sh("git -C /repo status --porcelain").stdout.strip():
         print("refusing: /repo working tree is not clean")
         return 2
